@@ -3,6 +3,7 @@
 package corerad
 
 import (
+	"io/fs"
 	"fmt"
 	"context"
 	"errors"
@@ -33,6 +34,7 @@ const (
 	fHandlerErr
 	fInitWriteSyscall // the initial multicast RA of the first connection fails with a system-call error
 	fInitWriteErr     // … with another error
+	fHandlerPathErr   // the system state fails with *fs.PathError{ENOENT} (the interface's sysctl files are gone)
 )
 
 // runGroup injects one fault into a running task and observes how the whole task reacts:
@@ -121,9 +123,15 @@ func runGroup(t *testing.T, out *vfh.Out, monitor, unicastOnly bool, kind int, t
 			watchC <- netstate.LinkDown
 		case fCancel:
 			cancel()
-		case fHandlerErr:
+		case fHandlerErr, fHandlerPathErr:
 			st.mu.Lock()
 			st.err = errors.New("scripted state error")
+			if kind == fHandlerPathErr {
+				// transient: with the failure persisting while dialling succeeds, every re-dial
+				// would fail in its initial transmission at once — a loop that virtual time
+				// cannot leave (each init() starts its back-off at zero)
+				st.err, st.errOnce = &fs.PathError{Op: "open", Path: "/proc/sys/net/ipv6/conf/vf0/forwarding", Err: syscall.ENOENT}, true
+			}
 			st.mu.Unlock()
 			c0.deliver(vfRead{m: advMessage(advEvent{kind: 1}), hop: 255, host: vfHosts[1].WithZone("vf0")})
 		}
@@ -208,6 +216,10 @@ func verifC10Group(t *testing.T, r *vfh.Rand, out *vfh.Out) {
 	}
 	for _, kind := range []int{fInitWriteSyscall, fInitWriteErr} {
 		runGroup(t, out, false, false, kind, 1) // (a unicast-only advertiser makes no initial transmission)
+	}
+	for _, tf := range instants {
+		runGroup(t, out, false, false, fHandlerPathErr, tf)
+		runGroup(t, out, false, true, fHandlerPathErr, tf)
 	}
 	n := vfh.N(200, 5000)
 	for i := 0; i < n; i++ {
